@@ -11,7 +11,7 @@ import (
 	"github.com/thanos-community/promql-engine/zzverif/sym"
 )
 
-var verifConcQueries = []string{`foo`, `sum by (a) (foo)`, `foo + on(a) bar`, `rate(foo[2m])`}
+var verifConcQueries = []string{`foo`, `histogram_quantile(0.5, h_bucket)`, `sum by (a) (foo)`, `foo + on(a) bar`, `rate(foo[2m])`}
 
 // VerifH12p: two queries created and executed concurrently on one engine over one
 // shared storage, under every schedule with bounded preemptions: each returns what it
@@ -20,11 +20,18 @@ var verifConcQueries = []string{`foo`, `sum by (a) (foo)`, `foo + on(a) bar`, `r
 func VerifH12p() {
 	qa := verifConcQueries[sym.Choice("queryA", sym.Tier(2, len(verifConcQueries)))]
 	qb := verifConcQueries[1+sym.Choice("queryB", sym.Tier(2, len(verifConcQueries)-1))]
+	if qa == qb && qa != verifConcQueries[1] {
+		sym.Stop()
+	}
 	start := sym.Int64("start", 0, verifR)
 	step := sym.Int64("step", 1, verifR)
 	data := []*stub.Series{
 		stub.NewSeries(stub.Labels("__name__", "foo", "a", "x", "b", "1"), []stub.Sample{{T: start, V: sym.Float64("v0")}}),
 		stub.NewSeries(stub.Labels("__name__", "bar", "a", "x"), []stub.Sample{{T: start, V: sym.Float64("v1")}}),
+		stub.NewSeries(stub.Labels("__name__", "h_bucket", "job", "j1", "le", "1"), []stub.Sample{{T: start, V: 1}}),
+		stub.NewSeries(stub.Labels("__name__", "h_bucket", "job", "j1", "le", "+Inf"), []stub.Sample{{T: start, V: 2}}),
+		stub.NewSeries(stub.Labels("__name__", "h_bucket", "job", "j2", "le", "1"), []stub.Sample{{T: start, V: 3}}),
+		stub.NewSeries(stub.Labels("__name__", "h_bucket", "job", "j2", "le", "+Inf"), []stub.Sample{{T: start, V: 4}}),
 	}
 	store := &stub.Queryable{Ser: data}
 	sym.SetGOMAXPROCS(2)
